@@ -56,6 +56,10 @@ def _auto_consts(text, linemap, meta, repo, stderr, tpath):
     if not names:
         return None
     files = sorted(set(k.split("::")[0] for k in meta["hashes"]))
+    # the group's own files first, then the rest of the crate (a constant imported with `use`)
+    idir = os.path.join(repo, "src", "internal")
+    if os.path.isdir(idir):
+        files += sorted("src/internal/" + f for f in os.listdir(idir) if f.endswith(".rs") and "src/internal/" + f not in files)
     added = []
     for n in sorted(names):
         for rel in files:
@@ -90,6 +94,82 @@ def _auto_consts(text, linemap, meta, repo, stderr, tpath):
     return new_text, new_map
 
 
+def _auto_helpers(text, linemap, meta, repo, stderr, tpath):
+    """A refactor may introduce a small pure helper METHOD the template does not know
+    (`fn is_associative(&self) -> bool { matches!(..) }`).  When rustc reports `no method named
+    `X` found for .. `T`` and an inherent `impl T` in a source file of the group defines
+    `fn X(&self) -> R { body }`, the helper is appended with the strongest contract a pure helper
+    can have -- its result equals its own body read as a spec function (rule X12:auto-helper).
+    Anything else (other parameters, a body Verus cannot read as a spec) stays UNDECIDED."""
+    found = set(re.findall(r"no method named `([a-z_][a-z0-9_]*)` found for (?:reference|struct|enum) `&?(?:mut )?([A-Z][A-Za-z0-9_]*)`", stderr))
+    if not found:
+        return None
+    files = sorted(set(k.split("::")[0] for k in meta["hashes"]))
+    added = []
+    for (name, ty) in sorted(found):
+        hit = None
+        for rel in files:
+            pth = os.path.join(repo, rel)
+            if not os.path.exists(pth):
+                continue
+            src = open(pth).read()
+            masked = extract.mask_source(src)
+            for it in extract.list_items(src, masked, 0, len(src), 0):
+                if it[0] == "impl" and re.sub(r"\s+", "", it[1]) == ty:
+                    b = extract.find_body_open(masked, it[4])
+                    for it2 in extract.list_items(src, masked, b + 1, it[3] - 1, 0):
+                        if it2[0] == "fn" and it2[1] == name:
+                            hit = (rel, src[it2[2]:it2[3]], src.count("\n", 0, it2[2]) + 1)
+            if hit:
+                break
+        if not hit:
+            return None
+        rel, ftext, ln = hit
+        ftext = extract.x1_strip(ftext, set())
+        m = re.match(r"\s*(?:pub(?:\([a-z]+\))?\s+)?fn\s+%s\s*\(\s*&self\s*\)\s*->\s*([A-Za-z0-9_:<>]+)\s*\{" % name, ftext)
+        if not m:
+            return None
+        ret = m.group(1)
+        body = ftext[m.end() - 1:]
+        spec_body = re.sub(r"\*self\b", "vx_s", body)
+        spec_body = re.sub(r"\bself\b", "vx_s", spec_body)
+        added.append((name, ty, rel, ln, ret, body, spec_body))
+    marker = "} // verus!"
+    k = text.rfind(marker)
+    if k < 0:
+        return None
+    ins = ""
+    for (name, ty, rel, ln, ret, body, spec_body) in added:
+        ins += "// auto-included helper (X12:auto-helper) from %s:%d -- contract: the result is its own body read as a spec function\n" % (rel, ln)
+        ins += "spec fn vx_auto_%s(vx_s: %s) -> %s %s\n" % (name, ty, ret, spec_body.strip())
+        ins += "impl %s {\n    fn %s(&self) -> (r: %s)\n        ensures r == vx_auto_%s(*self)\n    %s\n}\n" % (ty, name, ret, name, body.strip())
+        meta["rules"].setdefault("%s::<%s>::%s" % (rel, ty, name), []).append("X12:auto-helper")
+    new_text = text[:k] + ins + text[k:]
+    line_at = text.count("\n", 0, k)
+    extra = [(tpath, 0)] * ins.count("\n")
+    new_map = linemap[:line_at] + extra + linemap[line_at:]
+    return new_text, new_map
+
+
+def _run_with_autofix(cmd, out, text, linemap, meta, repo, tpath):
+    """run Verus; on `cannot find value` / `no method named` retry once each with the
+    auto-included constant / helper (rules X1:auto-const, X12:auto-helper)"""
+    p = subprocess.run(cmd, cwd=WORK, capture_output=True, text=True)
+    if "cannot find value `" in p.stderr:
+        auto = _auto_consts(text, linemap, meta, repo, p.stderr, tpath)
+        if auto:
+            text, linemap = auto
+            open(out, "w").write(text)
+            p = subprocess.run(cmd, cwd=WORK, capture_output=True, text=True)
+    if "no method named `" in p.stderr:
+        auto = _auto_helpers(text, linemap, meta, repo, p.stderr, tpath)
+        if auto:
+            text, linemap = auto
+            open(out, "w").write(text)
+            p = subprocess.run(cmd, cwd=WORK, capture_output=True, text=True)
+    return p, text, linemap
+
+
 def run_group(group, repo="/repo", extra_args=None, keep=False, seed=None):
     os.makedirs(WORK, exist_ok=True)
     tpath = os.path.join(VERIF, "contracts", group + ".vt")
@@ -117,13 +197,7 @@ def run_group(group, repo="/repo", extra_args=None, keep=False, seed=None):
     if extra_args:
         cmd += extra_args
     res["cmd"] = " ".join(cmd)
-    p = subprocess.run(cmd, cwd=WORK, capture_output=True, text=True)
-    if "cannot find value `" in p.stderr:
-        auto = _auto_consts(text, linemap, meta, repo, p.stderr, tpath)
-        if auto:
-            text, linemap = auto
-            open(out, "w").write(text)
-            p = subprocess.run(cmd, cwd=WORK, capture_output=True, text=True)
+    p, text, linemap = _run_with_autofix(cmd, out, text, linemap, meta, repo, tpath)
     res["wall_s"] = time.time() - t0
     # diagnostics (stderr, one JSON object per line)
     regions = meta["fn_regions"]
@@ -154,7 +228,9 @@ def run_group(group, repo="/repo", extra_args=None, keep=False, seed=None):
         origin = linemap[gl - 1] if gl and 0 < gl <= len(linemap) else (None, None)
         # function the diagnostic belongs to: any span inside a function region
         fn = None
-        for s in allspans:
+        # the primary span first: for a failed precondition that is the CALL SITE (the function
+        # whose obligation failed), the secondary span is the callee's clause
+        for s in sorted(allspans, key=lambda x: 0 if x.get("is_primary") else 1):
             fn = fn or fn_of(s["line_start"])
         code_span = None
         for s in allspans:
@@ -231,7 +307,13 @@ def _vacuity(group, repo, tpath, cmd):
         return {"probed": 0, "vacuous": []}
     open(out, "w").write(text)
     c2 = [out if a.endswith(group + ".rs") else a for a in cmd]
-    p = subprocess.run(c2, cwd=WORK, capture_output=True, text=True)
+    p, text, linemap = _run_with_autofix(c2, out, text, linemap, meta, repo, tpath)
+    try:
+        js = json.loads(p.stdout[p.stdout.index("{"):])
+    except Exception:
+        js = None
+    if js is None or js.get("verification-results", {}).get("encountered-vir-error") or "verification-results" not in js:
+        return {"probed": len(probed), "vacuous": [], "error": "verus did not verify the probe file: " + p.stderr[-300:]}
     probe_lines = set(i + 1 for i, l in enumerate(text.split("\n")) if "VACUITY-PROBE" in l)
     failed_at = set()
     for ln in p.stderr.splitlines():
